@@ -36,3 +36,15 @@ def scale_tol(kappa):
 
 def ill_conditioned(kappa):
     return 1e3 * EPS * kappa > 1e-2
+
+
+def self_cov_err(P, Pref, q, d, h, floor=1e-12):
+    """Entrywise |P - Pref| relative to sqrt(v_i v_j), v = diag(Pref) floored at `floor` times the
+    largest variance in Nordsieck coordinates (variances that are mathematically zero -- e.g. an exactly
+    observed derivative -- carry only rounding noise and must not be used as a yardstick)."""
+    sc = nordsieck_scales(q, d, h)
+    v = onp.abs(onp.diag(Pref))
+    vmax = onp.max(v * sc * sc)
+    v = onp.maximum(v, floor * vmax / (sc * sc))
+    den = onp.sqrt(onp.outer(v, v)) + 1e-300
+    return float(onp.max(onp.abs(onp.asarray(P) - Pref) / den))
